@@ -5,8 +5,8 @@ Driver handler for the `err` model (C07).
 
 `scen <cause> <pos> <refKind> <qual> <dbSet> <schemaSet>` → impl=<outcome>|<changed>	spec=<outcome>|<changed>	finding=<key|->
 `ops <dbSet> <schemaSet> <vars ,-sep> <op ;-sep>` with
-   op := o | c | x:<undefinedVar>:<parseError>:<var>:<call ,-sep>      var := - | s.NAME | u.NAME
-   call := <noDb><noSchema>.<sqlcode>.<ctx>.<followup codes +-sep or ->   ctx := - | d (USE DATABASE X) | s (USE SCHEMA Y)
+   op := o | c | d:<call> (checked description) | x:<undefinedVar>:<parseError>:<var>:<call ,-sep>      var := - | s.NAME | u.NAME
+   call := <noDb><noSchema>.<sqlcode>.<ctx>.<followup codes +-sep or ->   ctx := - | d (USE DATABASE X) | s (USE SCHEMA Y) | q (USE SCHEMA X.Y)
    sqlcode := 0 accept | 1 binder | 2 catalog | 3 txNoActive | 4 txOther | 5 parser | 6 conversion | 7 constraint | 8 connection
  → impl=<per op: outcome|sqlstate|changed|finding ;-sep>
 outcome := ok | P:<errno>:<sqlstate> | D:<errno>:<sqlstate> | R:<duck class> | Y:<python class>
@@ -69,6 +69,7 @@ def parseCall (s : String) : Option (Call Nat) :=
       | "-" => some CtxUpdate.none
       | "d" => some (.setDatabase "X")
       | "s" => some (.setSchema "Y")
+      | "q" => some (.setSchema "Y" (some "X"))
       | _ => none
     let fs := if fol == "-" then [] else (fol.splitOn "+").filterMap (·.toNat?)
     pure { noDatabase := fl.getD 0 '0' == '1', noSchema := fl.getD 1 '0' == '1', sql := q, ctx := cx, followups := fs }
@@ -84,11 +85,13 @@ inductive DrvOp
   | exec (usesVar : Option String) (s : Stmt Nat)    -- `usesVar`: the text mentions `$NAME`
   | other
   | close
+  | descr (c : Call Nat)                              -- checked `cursor.description`: the DESCRIBE call and DuckDB's reaction to it
 
 def parseOp (s : String) : Option DrvOp :=
   if s == "o" then some .other
   else if s == "c" then some .close
   else match s.splitOn ":" with
+    | ["d", call] => (parseCall call).map .descr
     | ["x", u, p, v, calls] => do
       let vu ← parseVar v
       let cs ← (if calls == "-" then some [] else (calls.splitOn ",").mapM parseCall)
@@ -107,6 +110,7 @@ def traceOps (w : World Nat) (st : Option String) : List DrvOp → List String
     let r := execute engQ w s
     let changed := r.world.duck != w.duck || r.world.sess != w.sess
     s!"{encOutcome r.outcome}|{r.sqlstate.getD "-"}|{encBool changed}|{(stmtFinding w.sess s).getD "-"}" :: traceOps r.world r.sqlstate ops
+  | .descr c :: ops => s!"{encOutcome (descriptionOutcome engQ w c)}|{st.getD "-"}|0|-" :: traceOps w st ops
   | .other :: ops => s!"-|{st.getD "-"}|0|-" :: traceOps w st ops
   | .close :: ops => s!"-|{st.getD "-"}|0|-" :: traceOps { w with closed := true } st ops
 
